@@ -324,7 +324,14 @@ def _kernel_formula(ck, f, name, i, acc_leaves, F, FC, B):
     else:
         ck.violation("C02.R4", q, "0 Hz bin", "samples at f < 1e-6 are not excluded", loc=f.loc(i))
     if rest:
-        raise AnalysisError(f"{q}: support condition(s) not recognised: {rest}")
+        kernel_syms = {F, FC, B}
+        foreign = [r for r in rest if not (isinstance(r, (sp.Ge, sp.Gt)) and r.free_symbols <= kernel_syms)]
+        if foreign:
+            raise AnalysisError(f"{q}: support condition(s) not recognised: {foreign}")
+        # a further restriction on (f, fc, bandwidth) that is not a limit on the kernel's own argument: the support is not the published one
+        ck.violation("C02.R4", q, "support limits", f"the samples entering the window are also restricted by {rest[0]}, which is not a limit on {X} "
+                     f"(the window support is no longer symmetric about the centre frequency)", loc=f.loc(i))
+        return
     sym_ok = False
     edge = None
     detail = f"{lo} <= {X} <= {up}"
